@@ -15,6 +15,8 @@
 (* Rebuild Tree.from_bipartition_encoding / from_split_bitmasks              *)
 (*         g0 the tree whose encoding is handed in (as it was before it was  *)
 (*         encoded), q masks in the order handed in, gr result               *)
+(* Namespace  acc / bits: accession code and taxon_bitmask of every member  *)
+(*         after the whole history of the case                               *)
 (* Pair    two trees on the same taxa / namespace / rooting: ga, gb as built,*)
 (*         ssa, ssb the split bitmasks of their encodings                    *)
 (* Pred    predicates between the bipartitions of tree A and tree B; gA2 =   *)
@@ -36,10 +38,10 @@ EncClass(e) == RootTag(IsRooted(e.g0)) \o (IF e.su THEN "+su" ELSE "-su") \o (IF
              \o (IF ~IsRooted(e.g0) /\ Len(e.g0.kids[e.g0.seed]) = 2 THEN "/basalbif" ELSE "")
 JudgeEncode(e) ==
     LET g0 == e.g0  g1 == e.g1  k == EncClass(e) IN
-    IF WFClause(g0) # "ok" THEN V("C01.DriverPrecondition", "encode-input:" \o WFClause(g0))
+    IF WFClause(g0) # "ok" THEN V("C01.InputInDomain", "encode-input:" \o WFClause(g0))
     ELSE IF e.raised # "" THEN V("C01.Raised", "encode_bipartitions:" \o e.raised)
     ELSE IF WFClause(g1) # "ok" THEN V("C01.EncodedTreeWellFormed", WFClause(g1))
-    ELSE IF Len(e.ls) # g1.n \/ Len(e.sp) # g1.n \/ Len(e.tl) # g1.n THEN V("C01.DriverPrecondition", "mask-table")
+    ELSE IF Len(e.ls) # g1.n \/ Len(e.sp) # g1.n \/ Len(e.tl) # g1.n THEN V("C01.InputInDomain", "mask-table")
     ELSE
       LET lt == TLCEval([x \in Nodes(g1) |-> LeafTx(g1, x)])
           all == lt[g1.seed]
@@ -74,7 +76,7 @@ JudgeRebuild(e) ==
     LET g0 == e.g0  gr == e.gr  M == S(e.M)  L == TreeTx(e.g0)
         k == (IF L = M THEN "full/" ELSE "partial/") \o RootTag(e.rt) \o "/" \o e.api IN
     IF WFClause(g0) # "ok" \/ ~AllLeavesDistinctTaxa(g0) \/ ~(L \subseteq M) \/ IsRooted(g0) # e.rt
-      THEN V("C01.DriverPrecondition", "rebuild-input")
+      THEN V("C01.InputInDomain", "rebuild-input")
     ELSE IF e.raised # "" THEN V("C01.Raised", e.api \o ":" \o e.raised)
     ELSE IF WFClause(gr) # "ok" THEN V("C01.ReconstructionTopology", "illformed:" \o WFClause(gr) \o "/" \o k)
     ELSE IF LeafTaxaBag(gr) # [m \in M |-> 1] THEN V("C01.ReconstructionTopology", "leaves-are-not-the-namespace/" \o k)
@@ -90,7 +92,7 @@ JudgePair(e) ==
     IF \/ WFClause(ga) # "ok" \/ WFClause(gb) # "ok"
        \/ ~AllLeavesDistinctTaxa(ga) \/ ~AllLeavesDistinctTaxa(gb)
        \/ TreeTx(ga) # TreeTx(gb) \/ IsRooted(ga) # IsRooted(gb)
-      THEN V("C01.DriverPrecondition", "pair-input")
+      THEN V("C01.InputInDomain", "pair-input")
     ELSE LET sameTopo == TopologyB(ga) = TopologyB(gb)
              sameSplits == SS(e.ssa) = SS(e.ssb)
          IN IF sameTopo = sameSplits THEN None
@@ -110,7 +112,7 @@ JudgePred(e) ==
         tag == "/" \o RootTag(r) IN
     IF B.rooted # r \/ Len(e.triv) # na \/ Len(e.compat) # na \/ Len(e.nested) # na
        \/ Len(e.tcompat) # nb \/ Len(e.tcompat2) # nb
-      THEN V("C01.DriverPrecondition", "pred-input")
+      THEN V("C01.InputInDomain", "pred-input")
     ELSE IF e.raised # "" THEN V("C01.Raised", "predicates:" \o e.raised)
     ELSE
       (IF \A x \in 1..na : e.triv[x] = Trivial(spa[x], F) THEN None ELSE V("C01.Predicates", "is_trivial" \o tag))
@@ -126,13 +128,25 @@ JudgePred(e) ==
       \o
       \* without the caller's promise that the encoding is current, the answer is about the tree as it is
       \* now (gA2; it may have been edited since the last encoding)
-      (IF WFClause(e.gA2) # "ok" THEN V("C01.DriverPrecondition", "pred-tree")
+      (IF WFClause(e.gA2) # "ok" THEN V("C01.InputInDomain", "pred-tree")
        ELSE LET S2 == SplitSet(e.gA2) IN
             IF \A y \in 1..nb : e.tcompat2[y] = TreeCompatible(S2, spb[y], F, r)
             THEN None ELSE V("C01.Predicates", "Tree.is_compatible_with_bipartition(re-encoding)" \o tag))
 
+\* ------------------------------------------------------------------ Namespace
+\* what the namespace answers for each member at the end of the case: acc = accession index + 1 (the
+\* taxon codes of every logged tree), bits = taxon_bitmask.  A leafset bitmask can only be "exactly the
+\* set of taxa below the edge" if every member answers one bit of its own, the accession bit.
+JudgeNamespace(e) ==
+    LET n == Len(e.acc) IN
+    IF \E i \in 1..n : Len(e.bits[i]) # 1 THEN V("C01.LeafsetExact", "namespace_bit_is_not_a_single_bit")
+    ELSE IF \E i, j \in 1..n : i # j /\ e.bits[i] = e.bits[j] THEN V("C01.LeafsetExact", "namespace_bits_not_injective")
+    ELSE IF \E i \in 1..n : e.bits[i][1] # e.acc[i] THEN V("C01.LeafsetExact", "namespace_bit_is_not_the_accession_bit")
+    ELSE None
+
 Judge(e) ==
-    CASE e.action = "Encode" -> JudgeEncode(e)
+    CASE e.action = "Namespace" -> JudgeNamespace(e)
+      [] e.action = "Encode" -> JudgeEncode(e)
       [] e.action = "Rebuild" -> JudgeRebuild(e)
       [] e.action = "Pair" -> JudgePair(e)
       [] e.action = "Pred" -> JudgePred(e)
